@@ -65,6 +65,7 @@ _blackbox_vlogger(int32_t target,
 		  struct qb_log_callsite *cs, struct timespec *timestamp, va_list ap)
 {
 	size_t max_size;
+	size_t max_msg_len;
 	size_t actual_size;
 	uint32_t fn_size;
 	char *chunk;
@@ -79,7 +80,11 @@ _blackbox_vlogger(int32_t target,
 	fn_size = strlen(cs->function) + 1;
 
 	actual_size = 4 * sizeof(uint32_t) + sizeof(uint8_t) + fn_size + sizeof(struct timespec);
-	max_size = actual_size + t->max_line_length;
+	/* qb_log_blackbox_print_from_file() decodes into QB_LOG_MAX_LEN bytes and
+	 * takes a longer message for a corrupt file: store no more than that,
+	 * whatever the line limit of the target is */
+	max_msg_len = QB_MIN(t->max_line_length, QB_LOG_MAX_LEN);
+	max_size = actual_size + max_msg_len;
 
 	chunk = qb_rb_chunk_alloc(t->instance, max_size);
 
@@ -119,14 +124,13 @@ _blackbox_vlogger(int32_t target,
 	chunk += sizeof(uint32_t);
 
 	/* log message */
-	msg_len = qb_vsnprintf_serialize(chunk, t->max_line_length, cs->format, ap);
-	if (msg_len >= t->max_line_length) {
+	msg_len = qb_vsnprintf_serialize(chunk, max_msg_len, cs->format, ap);
+	if (msg_len >= max_msg_len) {
 	    chunk = msg_len_pt + sizeof(uint32_t); /* Reset */
 
 	    /* never more than was reserved: max_line_length may be smaller
 	     * than this text */
-	    msg_len = qb_vsnprintf_serialize(chunk,
-		QB_MIN(QB_LOG_MAX_LEN, t->max_line_length),
+	    msg_len = qb_vsnprintf_serialize(chunk, max_msg_len,
 		"Log message too long to be stored in the blackbox.  "\
 		"Maximum is QB_LOG_MAX_LEN" , ap);
 	}
